@@ -1120,6 +1120,10 @@ func ParseByteRange(byteRange []byte, contentLength int) (startPos, endPos int, 
 		if startPos < 0 {
 			startPos = 0
 		}
+		if startPos > contentLength-1 {
+			// "bytes=-0", or any suffix range on an empty file, selects nothing: RFC 7233 calls it unsatisfiable
+			return 0, 0, fmt.Errorf("the suffix byte range %q is unsatisfiable for content length %d", byteRange, contentLength)
+		}
 		return startPos, contentLength - 1, nil
 	}
 
